@@ -642,6 +642,155 @@ theorem holdsParties_model (n self : Nat) (excl : List Nat) (seed : Nat) (hn : n
   rw [partyKeys_roundtrip seed _ (by omega), partyKeys_eq, ← operating_memberGroup, hsorted, ← hmis]
   simp [ownKey, toKey]
 
+theorem nodupB_of_nodup : ∀ (l : List Nat), l.Nodup → nodupB l = true
+  | [], _ => rfl
+  | a :: as, h => by
+    rw [List.nodup_cons] at h
+    simp only [nodupB, Bool.and_eq_true, Bool.not_eq_true', List.contains_eq_mem, decide_eq_false_iff_not]
+    exact ⟨h.1, nodupB_of_nodup as h.2⟩
+
+/-- every message in the history was delivered -/
+theorem hist_delivered (self sess : Nat) (g : Group) (seats : List Nat) (evs : List Ev) (s : St)
+    (hs : ∀ m ∈ s.hist, Ev.recv m ∈ evs) (rest : List Ev) (hsub : ∀ e ∈ rest, e ∈ evs) :
+    ∀ m ∈ (rest.foldl (step self sess g seats) s).hist, Ev.recv m ∈ evs := by
+  induction rest generalizing s with
+  | nil => exact hs
+  | cons e rest ih =>
+    simp only [List.foldl_cons]
+    apply ih _ _ (fun x hx => hsub x (List.mem_cons_of_mem _ hx))
+    cases e with
+    | recv x =>
+      intro m hm
+      simp only [step] at hm
+      rcases (mem_receive ..).1 hm with h | ⟨rfl, _⟩
+      · exact hs m h
+      · exact hsub _ (by simp)
+    | next =>
+      intro m hm
+      simp only [step] at hm
+      split at hm <;> exact hs m hm
+
+theorem getD_map_range (F : Nat → α) (d : α) (n k : Nat) (hk : k < n) :
+    ((List.range n).map F).getD k d = F k := by
+  rw [List.getD_eq_getElem?_getD, List.getElem?_map, List.getElem?_range hk]; rfl
+
+/-- The `recv` monitor accepts the model's own output for every input: group, seats, session and
+    every event list whose deliveries carry their position as `seq` (what the op-line parser
+    assigns). Correspondence + this theorem ⇒ the monitor's predicate holds of the real code. -/
+theorem holdsRecv_model (self sess : Nat) (g : Group) (seats : List Nat) (evs : List Ev)
+    (hseq : ∀ i m, evs[i]? = some (Ev.recv m) → m.seq = i) :
+    holdsRecv self sess g seats evs (run self sess g seats evs).idx
+      (canTransition (run self sess g seats evs).idx g (run self sess g seats evs).hist)
+      ((List.range 6).map fun k =>
+        (received (run self sess g seats evs).hist k).map fun m => (m.sender, m.seq)) = true := by
+  generalize hrun : run self sess g seats evs = s
+  have hdel : ∀ m ∈ s.hist, Ev.recv m ∈ evs := by
+    rw [← hrun]; exact hist_delivered self sess g seats evs ⟨0, []⟩ (by simp) evs (fun _ h => h)
+  have hadm : ∀ m ∈ s.hist, admitted self sess g seats m = true := by
+    rw [← hrun]; exact foldl_step_hist_admitted self sess g seats evs ⟨0, []⟩ (by simp)
+  unfold holdsRecv
+  rw [Bool.and_eq_true]
+  constructor
+  · rw [List.all_eq_true]
+    intro k hk
+    simp only [List.length_map, List.length_range, List.mem_range] at hk
+    simp only [getD_map_range _ _ 6 k hk, Bool.and_eq_true]
+    constructor
+    · rw [List.all_eq_true]
+      intro p hp
+      obtain ⟨m, hm, rfl⟩ := List.mem_map.1 hp
+      obtain ⟨hmh, hmk⟩ := received_subset s.hist k m hm
+      obtain ⟨i, hi⟩ := List.mem_iff_getElem?.1 (hdel m hmh)
+      have := hseq i m hi
+      subst this
+      simp [hi, hmk, hadm m hmh]
+    · apply nodupB_of_nodup
+      rw [List.map_map]
+      exact received_senders_nodup s.hist k
+  · unfold canTransition
+    cases hk : kindOf s.idx with
+    | none => rfl
+    | some k =>
+      have hk6 : k < 6 := by
+        unfold kindOf at hk
+        split at hk <;> simp at hk <;> omega
+      dsimp only
+      rw [getD_map_range _ _ 6 k hk6]
+      simp
+
+/-! ## result publication -/
+
+theorem runPub_admitted (self sess : Nat) (g : Group) (seats : List Nat) (ms : List PMsg) (h0 : List PMsg)
+    (h : ∀ m ∈ h0, admittedPub self sess g seats m = true ∧ m ∈ h0 ++ ms) :
+    ∀ m ∈ ms.foldl (receivePub self sess g seats) h0,
+      admittedPub self sess g seats m = true ∧ m ∈ h0 ++ ms := by
+  induction ms generalizing h0 with
+  | nil => simpa using h
+  | cons a as ih =>
+    simp only [List.foldl_cons]
+    intro m hm
+    have := ih (receivePub self sess g seats h0 a) (by
+      intro x hx
+      unfold receivePub at hx ⊢
+      split at hx
+      · rename_i ha
+        rcases List.mem_append.1 hx with hx | hx
+        · exact ⟨(h x hx).1, by simp [hx, ha]⟩
+        · simp at hx; subst hx; exact ⟨ha, by simp [ha]⟩
+      · rename_i ha
+        exact ⟨(h x hx).1, by simp [ha, hx]⟩) m hm
+    refine ⟨this.1, ?_⟩
+    have h2 := this.2
+    unfold receivePub at h2
+    split at h2 <;> simp at h2 ⊢ <;> grind
+
+/-- **publication_only_admitted**: a result signature enters the publication history — and hence
+    the signature verification and the submitted result — only if it is a `resultSignatureMessage`
+    of the member's session, from an operating (not misbehaved) member other than the receiver,
+    whose network-authenticated key is the key of the operator seated at the claimed index AND the
+    key embedded in the signature message. -/
+theorem publication_only_admitted (self sess : Nat) (g : Group) (seats : List Nat) (ms : List PMsg) :
+    ∀ m ∈ runPub self sess g seats ms,
+      m.kind = 5 ∧ m.sender ≠ self ∧ validMembership seats m.sender m.op = true ∧
+        g.isOperating m.sender = true ∧ m.sigOp = m.op ∧ m.sess = sess ∧ m ∈ ms := by
+  intro m hm
+  obtain ⟨ha, hmem⟩ := runPub_admitted self sess g seats ms [] (by simp) m hm
+  simp only [admittedPub, shouldAccept, Bool.and_eq_true, beq_iff_eq, Bool.not_eq_true',
+    beq_eq_false_iff_ne] at ha
+  obtain ⟨⟨⟨a, ⟨b, c⟩, d⟩, e⟩, f⟩ := ha
+  exact ⟨a, b, c, d, e, f.symm, by simpa using hmem⟩
+
+theorem receivedPub_senders_nodup (h : List PMsg) : ((receivedPub h).map (·.sender)).Nodup :=
+  received_senders_nodup _ 5
+
+/-- The `pub` monitor accepts the model's own output for every input. -/
+theorem holdsPub_model (self sess : Nat) (g : Group) (seats : List Nat) (ms : List PMsg)
+    (hseq : ∀ (i : Nat) (m : PMsg), ms[i]? = some m → m.seq = i) :
+    holdsPub self sess g seats ms (canTransitionPub g (runPub self sess g seats ms))
+      ((receivedPub (runPub self sess g seats ms)).map fun m => (m.sender, m.seq)) = true := by
+  generalize hh : runPub self sess g seats ms = h
+  have hadm := publication_only_admitted self sess g seats ms
+  have hraw := runPub_admitted self sess g seats ms [] (by simp)
+  rw [show List.foldl (receivePub self sess g seats) [] ms = runPub self sess g seats ms from rfl, hh] at hraw
+  unfold holdsPub
+  simp only [Bool.and_eq_true, List.length_map]
+  refine ⟨⟨?_, ?_⟩, ?_⟩
+  · rw [List.all_eq_true]
+    intro p hp
+    obtain ⟨x, hx, rfl⟩ := List.mem_map.1 hp
+    obtain ⟨hxh, _⟩ := received_subset _ 5 x hx
+    obtain ⟨pm, hpm, rfl⟩ := List.mem_map.1 hxh
+    obtain ⟨ha, hmem⟩ := hraw pm hpm
+    obtain ⟨i, hi⟩ := List.mem_iff_getElem?.1 (by simpa using hmem : pm ∈ ms)
+    have := hseq i pm hi
+    subst this
+    simp [PMsg.toMsg, hi, ha]
+  · apply nodupB_of_nodup
+    rw [List.map_map]
+    exact receivedPub_senders_nodup h
+  · simp [canTransitionPub]
+
+
 example : (memberGroup 5 1 [3, 3, 9, 1]).operating = [1, 2, 4, 5] := by decide
 example : misbehaved (memberGroup 5 1 [3, 3, 9, 1]) = [3] := by decide
 example : partyKeys 1000 (memberGroup 5 2 [4]) = [1001, 1002, 1003, 1005] := by decide
